@@ -459,14 +459,13 @@ class SQLiteStorage(SQLiteMixin):
 
         sd_blobs = await self.db.execute_fetchall(
             "select blob.blob_hash, blob.blob_length, blob.added_on "
-            "from blob join stream on blob.blob_hash=stream.sd_hash join file using (stream_hash) "
+            "from blob join stream on blob.blob_hash=stream.sd_hash "  # with or without a file row, as the usage
             "where blob.is_mine=? order by blob.added_on asc",
             (is_mine,)
         )
         content_blobs = await self.db.execute_fetchall(
             "select distinct blob.blob_hash, blob.blob_length, blob.added_on "
-            "from blob join stream_blob using (blob_hash) cross join stream using (stream_hash)"
-            "cross join file using (stream_hash)"
+            "from blob join stream_blob using (blob_hash) cross join stream using (stream_hash) "
             "where blob.is_mine=? and blob.status='finished' order by blob.added_on asc, blob.blob_length asc",
             (is_mine,)
         )
